@@ -126,6 +126,7 @@ Proof.
   - apply wf_insert, H.
   - apply wf_empty.
   - apply wf_empty.
+  - apply wf_empty.
   - unfold rehydrate. destruct (tstatus (buf s)); try exact H.
     destruct (condn s); simpl; try exact H;
       [apply (wf_set_status (buf s) Healthy) | apply (wf_set_status (buf s) Unhealthy)].
@@ -250,6 +251,9 @@ Proof.
     + (* PoolChanged *)
       apply (IH false); [|exact Hhist].
       split; [apply swf_step, Hw|]. split; [discriminate|]. intros _. exact I.
+    + (* ClassChanged *)
+      apply (IH false); [|exact Hhist].
+      split; [apply swf_step, Hw|]. split; [discriminate|]. intros _. exact I.
     + (* Crash *)
       apply (IH true); [|exact Hhist].
       split; [apply wf_empty|]. split; [reflexivity|discriminate].
@@ -302,6 +306,7 @@ Proof.
     destruct (failures_fill_half (window (step s RecordFailure))) eqn:E.
     + rewrite (Ht eq_refl). reflexivity.
     + rewrite (Hf eq_refl). reflexivity.
+  - reflexivity.
   - reflexivity.
   - reflexivity.
   - destruct s as [b c]. unfold swf in H. cbn [buf condn step] in *.
